@@ -948,7 +948,7 @@ def group_judge(sc, res):
     # answers for service types that were not requested are ignored: the same delivery with and without
     # them returns the same configurations
     extra = {j for j, d in enumerate(sc["dgrams"]) if d.get("unrequested")}
-    if extra and sc["mode"] == "m":
+    if extra and sc["mode"] == "m" and sc["consistent"]:
         plain = {(tuple(r[0]), r[3]): r for r in good if not (set(r[0]) & extra)}
         for order, obs, info, burst in good:
             if not (set(order) & extra):
